@@ -5207,7 +5207,9 @@ class FlowIRConcrete(object):
         comp_identifiers = self.get_component_identifiers(recompute=True, include_documents=True)
         comp_stages = {}
 
-        for comp_id in comp_identifiers:
+        # VV: the identifiers are a set: list the components in a stable order so that storing the same description
+        # twice (e.g. after loading it) produces the same document
+        for comp_id in sorted(comp_identifiers):
             stage, name = comp_id
             if stage not in comp_stages:
                 comp_stages[stage] = []
